@@ -20,8 +20,9 @@ from mc import core
 
 # ------------------------------------------------------------------ alphabet
 
-PATHS_QUICK = ["a", "a.b", "a.b.c", "a.c", "b", ".a", "a.", ".a.b.", "a..b", ".", "", "time", "time.t", "meta.m"]
-PATHS_MORE = ["a.b.c.d", "b.c", "..a", "a..b.c", "a.b..", "b..", "..", "meta"]
+PATHS_QUICK = ["a", "a.b", "a.b.c", "a.c", "b", ".a", "a.", ".a.b.", "a..b", ".", "", "time", "time.t", "meta.m",
+               "a.a", "a.a.a"]           # a segment name repeated deeper in the same path
+PATHS_MORE = ["a.b.c.d", "b.c", "..a", "a..b.c", "a.b..", "b..", "..", "meta", "a.b.a", "a.b.a.b"]
 VERBS = ["create", "createNode", "add", "addNode", "change"]
 
 
